@@ -345,11 +345,14 @@ impl<R: Round, const B: Word> FBig<R, B> {
                 significand /= B as DoubleWord;
                 exponent += 1;
             }
+            // count the powers of the base that do not exceed the significand; when the next power does
+            // not fit in a DoubleWord it exceeds the significand as well
+            digits = 1;
             while let Some(next) = pow.checked_mul(B as DoubleWord) {
-                digits += 1;
                 if next > significand {
                     break;
                 }
+                digits += 1;
                 pow = next;
             }
         }
